@@ -297,7 +297,9 @@ def run_noplan_task(task):
         if not ctx.assume(z3.And(cons) if cons else z3.BoolVal(True)):
             return None
         free = SymStr([SymChar(v) for v in tv])
-        log = SymStr.of(HEADERS[task["header"]]) + free + "\n" + body + TRAILERS[1]
+        # round 23: step-like lines (search-debug output) in a log that has no plan marker
+        debug = "   0: MOVE A B\n   1: PICK-UP C\n" if task.get("steplike") else ""
+        log = SymStr.of(HEADERS[task["header"]]) + free + "\n" + debug + body + TRAILERS[1]
         rex.install(ff, _REX)
         ff.open = text.make_open({"/sym/plan.log": log})
         try:
@@ -493,6 +495,8 @@ def tasks_for(tier, seed):
     for v in range(len(NO_SOLUTION_LOGS)):
         for tl in (0, 2, 3) if tier == "quick" else (0, 2, 3, 4):
             tasks.append({"kind": "noplan", "variant": v, "trailer_len": tl, "header": v % 2})
+        for tl in (0, 2):
+            tasks.append({"kind": "noplan", "variant": v, "trailer_len": tl, "header": (v + 1) % 2, "steplike": True})
     for ll in ([[1], [2], [3], [1, 1], [2, 1], [4]] if tier == "quick" else [[1], [2], [3], [1, 1], [2, 1], [4], [3, 2], [1, 1, 1], [5]]):
         for entry in ("content", "parse_plan"):
             tasks.append({"kind": "enhsp", "line_lens": ll, "entry": entry})
